@@ -48,8 +48,8 @@ def gen_cases(t, sd):
             cases.append((rng.choice(STARTS), [rng.choice(vals) for _ in range(rng.randint(5, 7))]))
     # longer curves over a wider but still small range (month / year crossings guaranteed)
     for _ in range(150 if t == "quick" else 1500):
-        n = rng.randint(8, 14)
-        cases.append((rng.choice(STARTS), [rng.choice([6, 8, 9, 10, 12]) for _ in range(n)]))
+        n = rng.randint(8, 12)
+        cases.append((rng.choice(STARTS), [rng.choice([8, 10, 12, 16]) for _ in range(n)]))
     return cases
 
 
@@ -79,14 +79,18 @@ def ieee_ratio(periods, mean, var):
     return math.sqrt(periods) * m / s
 
 
-def same_ratio(got, exp, var):
+def same_ratio(got, exp, var, mean=None):
+    """got against the IEEE value of the definition.  Where the deviation is EXACTLY zero in exact arithmetic the
+    floating-point deviation of three or more equal returns may come out as 1e-17 instead of 0: then 0/0 is noise
+    over noise (anything goes) and x/0 may be a huge finite number of the right sign."""
+    if var is not None and var == 0:
+        if mean is not None and mean == 0:
+            return True
+        return got != got or math.isinf(got) or abs(got) > 1e6
     if exp != exp:
         return got != got
     if math.isinf(exp):
-        # an exactly-zero deviation of three or more equal returns may come out as 1e-17 in floating point
-        return math.isinf(got) and (got > 0) == (exp > 0) or (var is not None and var == 0 and abs(got) > 1e6 and (got > 0) == (exp > 0))
-    if var is not None and var == 0:
-        return got != got or abs(got) > 1e6
+        return math.isinf(got) and (got > 0) == (exp > 0)
     return got == got and abs(got - exp) <= REL * max(1.0, abs(exp))
 
 
@@ -183,9 +187,9 @@ def confront(case, res, periods, rng):
         NV = fr(negvar) if nneg > 0 else None
         exp_sh = ieee_ratio(periods, fr(mean), V)
         exp_so = ieee_ratio(periods, fr(mean), NV)
-        if not same_ratio(float(st["sharpe"]), exp_sh, V):
+        if not same_ratio(float(st["sharpe"]), exp_sh, V, fr(mean)):
             out.append(("sharpe", "Sharpe %r, expected %r" % (st["sharpe"], exp_sh)))
-        if not same_ratio(float(st["sortino"]), exp_so, NV):
+        if not same_ratio(float(st["sortino"]), exp_so, NV, fr(mean)):
             out.append(("sortino", "Sortino %r, expected %r (negative returns: %d)" % (st["sortino"], exp_so, nneg)))
         for name, f in (("sharpe", perf.create_sharpe_ratio), ("sortino", perf.create_sortino_ratio)):
             direct = float(f(real_returns, periods))
@@ -271,8 +275,10 @@ def run(prop, replay_file=None):
     results = {}
     try:
         tlc.stage_all(w)
-        for k in range(0, len(cases), 2500):
-            chunk = cases[k:k + 2500]
+        def evaluate(lo, hi):
+            """TLC on cases[lo:hi]; a chunk in which some curve overflows TLC's 32-bit integers is split until
+            the offending curves are isolated - those are skipped (counted in the evidence), never guessed."""
+            chunk = cases[lo:hi]
             with open(os.path.join(w, "StatsCases.tla"), "w") as fh:
                 fh.write(cases_module(chunk))
             with open(os.path.join(w, "st.cfg"), "w") as fh:
@@ -282,17 +288,29 @@ def run(prop, replay_file=None):
                 r = tlc.run(w, "MC_Stats", "st.cfg", workers=16, timeout=3000)
             except tlc.TLCError as e:
                 rep.machinery.append("TLC failed: %s" % str(e)[-1500:])
-                continue
-            rep.add_mc(r, "MC_Stats(cases %d..)" % k)
+                return
+            if r.violated == "evaluation-error" and "Overflow" in r.out:
+                if hi - lo == 1:
+                    rep.cov["skipped_overflow"] = rep.cov.get("skipped_overflow", 0) + 1
+                    rep.warnings.append("curve %s exceeds TLC's 32-bit integers; skipped" % (cases[lo],))
+                    return
+                mid = (lo + hi) // 2
+                evaluate(lo, mid)
+                evaluate(mid, hi)
+                return
+            rep.add_mc(r, "MC_Stats(cases %d..%d)" % (lo, hi))
             if not r.ok:
                 rep.machinery.append("the specification itself violates %s (spec error)" % r.violated)
-                continue
+                return
             got = parse_results(r.out)
             if len(got) != len(chunk):
                 rep.machinery.append("TLC printed %d results for %d cases" % (len(got), len(chunk)))
-                continue
+                return
             for j in range(len(chunk)):
-                results[k + j] = got[j + 1]
+                results[lo + j] = got[j + 1]
+
+        for k in range(0, len(cases), 2500):
+            evaluate(k, min(len(cases), k + 2500))
         # spec sensitivity: with the loop as originally written TLC itself must find the defect
         with open(os.path.join(w, "StatsCases.tla"), "w") as fh:
             fh.write(cases_module([(18624, [4, 3, 2, 3])]))
